@@ -46,9 +46,6 @@ func runC01(c *Ctx) {
 	fDelta := p.Field("packetmap", "Map", "delta")
 	fNext := p.Field("packetmap", "Map", "next")
 	fNextPid := p.Field("packetmap", "Map", "nextPid")
-	eDelta := p.Field("packetmap", "entry", "delta")
-	eFirst := p.Field("packetmap", "entry", "first")
-	eCount := p.Field("packetmap", "entry", "count")
 	eng := p.Facts()
 
 	// ---- R1.1 / R1.2 : Drop ----
@@ -142,345 +139,7 @@ func runC01(c *Ctx) {
 		}
 	}
 
-	// ---- R1.3 : Map / direct / Reverse ----
-	{
-		smp, sdi, srv := p.SSAFunc(mp.Obj), p.SSAFunc(di.Obj), p.SSAFunc(rv.Obj)
-		strip := func(v ssa.Value) ssa.Value {
-			for {
-				switch x := v.(type) {
-				case *ssa.Convert:
-					v = x.X
-				case *ssa.ChangeType:
-					v = x.X
-				default:
-					return v
-				}
-			}
-		}
-		// onTrueEdgeOf reports whether block b is only reachable through the
-		// true edge of a test "m.delta == 0"
-		underDeltaZero := func(b *ssa.BasicBlock) bool {
-			for x := b; x != nil; x = x.Idom() {
-				if len(x.Preds) != 1 {
-					continue
-				}
-				pr := x.Preds[0]
-				iff, ok := pr.Instrs[len(pr.Instrs)-1].(*ssa.If)
-				if !ok || pr.Succs[0] != x {
-					continue
-				}
-				if bo, ok := iff.Cond.(*ssa.BinOp); ok && bo.Op == token.EQL && isLoadOfField(bo.X, fDelta) {
-					if k, isC := bo.Y.(*ssa.Const); isC && k.Int64() == 0 {
-						return true
-					}
-				}
-			}
-			return false
-		}
-		afterReset := func(r *ssa.Return) bool {
-			for _, ins := range r.Block().Instrs {
-				if call, ok := ins.(*ssa.Call); ok && call.Call.StaticCallee() != nil && call.Call.StaticCallee().Name() == "reset" {
-					return true
-				}
-			}
-			return false
-		}
-		checkReturns := func(fn *ssa.Function, name string, inverse bool) {
-			seqP := ssa.Value(fn.Params[1])
-			var bad []string
-			n := 0
-			for _, b := range fn.Blocks {
-				r, isR := b.Instrs[len(b.Instrs)-1].(*ssa.Return)
-				if !isR || len(r.Results) != 3 || b == fn.Recover {
-					continue
-				}
-				rv := returnVals(r)
-				okv := rv[0]
-				if k, isC := okv.(*ssa.Const); isC && k.Value != nil && k.Value.String() == "false" {
-					continue
-				}
-				v := strip(rv[1])
-				if ex, isEx := v.(*ssa.Extract); isEx {
-					// tail call of direct(seqno)
-					call, isCall := ex.Tuple.(*ssa.Call)
-					if !isCall || call.Call.StaticCallee() != sdi || call.Call.Args[1] != seqP || ex.Index != 1 {
-						bad = append(bad, p.PosStr(r.Pos())+" (not direct(seqno))")
-					}
-					if ex0, ok := okv.(*ssa.Extract); !ok || ex0.Tuple != ex.Tuple || ex0.Index != 0 {
-						bad = append(bad, p.PosStr(r.Pos())+" (ok is not direct's)")
-					}
-					n++
-					continue
-				}
-				n++
-				switch {
-				case v == seqP:
-					// identity: only while no packet was ever dropped, or after a reset
-					if !underDeltaZero(b) && !afterReset(r) {
-						bad = append(bad, p.PosStr(r.Pos())+" (identity although delta may be non-zero)")
-					}
-				default:
-					bo, isB := v.(*ssa.BinOp)
-					okForm := false
-					if isB && !inverse && bo.Op == token.ADD {
-						x, y := strip(bo.X), strip(bo.Y)
-						okForm = (x == seqP && (isLoadOfField(y, fDelta) || isLoadOfField(y, eDelta))) || (y == seqP && (isLoadOfField(x, fDelta) || isLoadOfField(x, eDelta)))
-					}
-					if isB && inverse && bo.Op == token.SUB {
-						okForm = strip(bo.X) == seqP && isLoadOfField(strip(bo.Y), eDelta)
-					}
-					if !okForm {
-						bad = append(bad, p.PosStr(r.Pos()))
-					}
-				}
-			}
-			what := "seqno + delta (seqno itself only while delta == 0 or after a reset)"
-			if inverse {
-				what = "seqno - interval delta (seqno itself only while delta == 0)"
-			}
-			c.Check(len(bad) == 0 && n > 0, "R1.3", name+": successful returns are "+what, fn.Pos(), fmt.Sprintf("%d successful returns analysed", n), "a mapping is not of the form "+what+" (returns at "+strings.Join(bad, ", ")+")")
-		}
-		checkReturns(smp, "Map", false)
-		checkReturns(sdi, "direct", false)
-		checkReturns(srv, "Reverse", true)
-		// interval search: one cursor, membership test [F, F+count) with F =
-		// first (direct) or first+delta (Reverse) guards the successful return
-		checkSearch := func(fn *ssa.Function, name string, image bool) {
-			seqP := ssa.Value(fn.Params[1])
-			var cursor ssa.Value
-			single := true
-			for _, b := range fn.Blocks {
-				for _, ins := range b.Instrs {
-					fa, ok := ins.(*ssa.FieldAddr)
-					if !ok {
-						continue
-					}
-					f := fieldOf(fa)
-					if f != eFirst && f != eDelta && f != eCount && f != p.Field("packetmap", "entry", "pidDelta") {
-						continue
-					}
-					ia, ok := fa.X.(*ssa.IndexAddr)
-					if !ok {
-						single = false
-						continue
-					}
-					if cursor == nil {
-						cursor = ia.Index
-					} else if cursor != ia.Index {
-						single = false
-					}
-				}
-			}
-			isF := func(v ssa.Value) bool {
-				v = strip(v)
-				if !image {
-					return isLoadOfField(v, eFirst)
-				}
-				bo, ok := v.(*ssa.BinOp)
-				return ok && bo.Op == token.ADD && ((isLoadOfField(bo.X, eFirst) && isLoadOfField(bo.Y, eDelta)) || (isLoadOfField(bo.Y, eFirst) && isLoadOfField(bo.X, eDelta)))
-			}
-			isFplusCount := func(v ssa.Value) bool {
-				bo, ok := strip(v).(*ssa.BinOp)
-				return ok && bo.Op == token.ADD && ((isF(bo.X) && isLoadOfField(bo.Y, eCount)) || (isF(bo.Y) && isLoadOfField(bo.X, eCount)))
-			}
-			// cmpTest: cond is compare(seqno, X) rel 0, normalised to the orientation seqno ? X
-			cmpTest := func(cond ssa.Value) (ssa.Value, token.Token, bool) {
-				bo, ok := cond.(*ssa.BinOp)
-				if !ok {
-					return nil, 0, false
-				}
-				call, ok := bo.X.(*ssa.Call)
-				if !ok || call.Call.StaticCallee() == nil || call.Call.StaticCallee().Name() != "compare" {
-					return nil, 0, false
-				}
-				if k, isC := bo.Y.(*ssa.Const); !isC || k.Int64() != 0 {
-					return nil, 0, false
-				}
-				a0, a1 := call.Call.Args[0], call.Call.Args[1]
-				if a0 == seqP {
-					return a1, bo.Op, true
-				}
-				if a1 == seqP {
-					flip := map[token.Token]token.Token{token.LSS: token.GTR, token.GTR: token.LSS, token.LEQ: token.GEQ, token.GEQ: token.LEQ, token.EQL: token.EQL, token.NEQ: token.NEQ}
-					return a0, flip[bo.Op], true
-				}
-				return nil, 0, false
-			}
-			guarded := false
-			for _, b := range fn.Blocks {
-				r, isR := b.Instrs[len(b.Instrs)-1].(*ssa.Return)
-				if !isR || b == fn.Recover {
-					continue
-				}
-				rvv := returnVals(r)
-				if k, isC := rvv[0].(*ssa.Const); !isC || k.Value.String() != "true" {
-					continue
-				}
-				if bo, ok := strip(rvv[1]).(*ssa.BinOp); !ok || !(isLoadOfField(strip(bo.Y), eDelta) || isLoadOfField(strip(bo.X), eDelta)) {
-					continue
-				}
-				// the successful interval return: reachable only through both tests
-				if len(b.Preds) != 1 {
-					continue
-				}
-				p2 := b.Preds[0]
-				if2, ok := p2.Instrs[len(p2.Instrs)-1].(*ssa.If)
-				if !ok || p2.Succs[0] != b || len(p2.Preds) != 1 {
-					continue
-				}
-				p1 := p2.Preds[0]
-				if1, ok := p1.Instrs[len(p1.Instrs)-1].(*ssa.If)
-				if !ok || p1.Succs[0] != p2 {
-					continue
-				}
-				x2, op2, ok2 := cmpTest(if2.Cond)
-				x1, op1, ok1 := cmpTest(if1.Cond)
-				if ok1 && ok2 && op1 == token.GEQ && isF(x1) && op2 == token.LSS && isFplusCount(x2) {
-					guarded = true
-				}
-			}
-			what := "[first, first+count)"
-			if image {
-				what = "[first+delta, first+delta+count)"
-			}
-			c.Check(single && cursor != nil && guarded, "R1.3", name+": the interval delta is applied only to members of "+what, fn.Pos(), "one cursor; the successful return is reachable only through seqno >= F and seqno < F+count (mod 2^16)", "the interval whose delta is applied is not the one whose membership test "+what+" succeeded")
-		}
-		checkSearch(sdi, "direct", false)
-		checkSearch(srv, "Reverse", true)
-		// in-order branch of Map stores next = seqno + 1
-		okNext := true
-		nst := 0
-		for _, st := range storesToField(smp, fNext) {
-			nst++
-			cs, ok := coeffOf(st.Val, func(v ssa.Value) bool { return v == ssa.Value(smp.Params[1]) }, 0)
-			bo, isB := st.Val.(*ssa.BinOp)
-			if !ok || cs != 1 || !isB || bo.Op != token.ADD {
-				okNext = false
-				continue
-			}
-			if k, isC := bo.Y.(*ssa.Const); !isC || k.Int64() != 1 {
-				okNext = false
-			}
-		}
-		// every branch that hands out a number for a new packet (records a
-		// mapping, or resets) advances next in the same block
-		need, have := 1, 0
-		for _, b := range smp.Blocks {
-			pending := false
-			for _, ins := range b.Instrs {
-				if call, ok := ins.(*ssa.Call); ok && call.Call.StaticCallee() != nil {
-					if n := call.Call.StaticCallee().Name(); n == "addMapping" || n == "reset" {
-						pending = true
-						need++
-					}
-				}
-				if st, ok := ins.(*ssa.Store); ok && pending {
-					if fa, ok := st.Addr.(*ssa.FieldAddr); ok && fieldOf(fa) == fNext {
-						pending = false
-						have++
-					}
-				}
-			}
-			if pending {
-				okNext = false
-			}
-		}
-		// the branch for "nothing ever dropped": a store under the in-order test
-		for _, st := range storesToField(smp, fNext) {
-			if underDeltaZero(st.Block()) {
-				have++
-				break
-			}
-		}
-		c.Check(okNext && have >= need && need >= 4, "R1.3", "Map: every in-order packet advances next to seqno + 1", mp.Pos(), fmt.Sprintf("%d stores next = seqno + 1, %d branches that need one", nst, need), "a branch of Map hands out a number for a new packet without advancing next to seqno+1 (or advances it to something else)")
-		// the mapping recorded for an in-order packet is the one returned
-		am := p.Func("packetmap", "", "addMapping")
-		if am == nil {
-			c.Unknown("R1.3", "addMapping", mp.Pos(), "packetmap.addMapping not found")
-		} else {
-			sam := p.SSAFunc(am.Obj)
-			seqA, deltaA := ssa.Value(sam.Params[1]), ssa.Value(sam.Params[2])
-			okRec, nrec := true, 0
-			for _, st := range storesToField(sam, eDelta) {
-				nrec++
-				if st.Val != deltaA {
-					okRec = false
-				}
-			}
-			firsts := storesToField(sam, eFirst)
-			for _, st := range storesToField(sam, eCount) {
-				nrec++
-				// (seqno - F) + 1, F the first of the same interval
-				bo, isB := st.Val.(*ssa.BinOp)
-				if !isB || bo.Op != token.ADD {
-					okRec = false
-					continue
-				}
-				if k, isC := bo.Y.(*ssa.Const); !isC || k.Int64() != 1 {
-					okRec = false
-					continue
-				}
-				sub, isS := bo.X.(*ssa.BinOp)
-				if !isS || sub.Op != token.SUB || sub.X != seqA {
-					okRec = false
-					continue
-				}
-				okF := isLoadOfField(sub.Y, eFirst)
-				for _, fs := range firsts {
-					if fs.Val == sub.Y && sameBase(fs.Addr, st.Addr) {
-						okF = true
-					}
-				}
-				if !okF {
-					okRec = false
-				}
-			}
-			c.Check(okRec && nrec >= 3, "R1.3", "addMapping records (seqno, delta) with the interval ending at seqno", am.Pos(), fmt.Sprintf("%d stores: entry.delta = delta, entry.count = seqno - first + 1", nrec), "the interval recorded for a forwarded packet does not end at that packet or carries another delta than the one returned")
-			okCall := false
-			for _, b := range smp.Blocks {
-				for _, ins := range b.Instrs {
-					call, ok := ins.(*ssa.Call)
-					if !ok || call.Call.StaticCallee() != sam {
-						continue
-					}
-					okCall = call.Call.Args[1] == ssa.Value(smp.Params[1]) && isLoadOfField(call.Call.Args[2], fDelta)
-					// and the value returned after it is seqno + the same delta
-				}
-			}
-			c.Check(okCall, "R1.3", "Map records the mapping it returns", mp.Pos(), "addMapping(m, seqno, m.delta, ...) precedes return seqno + m.delta", "the mapping recorded for retransmissions differs from the number handed out")
-		}
-		// the interval created by the first Drop is the identity on the past
-		{
-			sdr := p.SSAFunc(dr.Obj)
-			okInit, ninit := true, 0
-			var firstK, countK int64 = -1, -2
-			for _, st := range storesToField(sdr, eDelta) {
-				ninit++
-				if k, ok := st.Val.(*ssa.Const); !ok || k.Int64() != 0 {
-					okInit = false
-				}
-			}
-			for _, st := range storesToField(sdr, eFirst) {
-				ninit++
-				cs, ok := coeffOf(st.Val, func(v ssa.Value) bool { return v == ssa.Value(sdr.Params[1]) }, 0)
-				bo, isB := st.Val.(*ssa.BinOp)
-				if !ok || cs != 1 || !isB || bo.Op != token.SUB {
-					okInit = false
-					continue
-				}
-				if k, isC := bo.Y.(*ssa.Const); isC {
-					firstK = k.Int64()
-				}
-			}
-			for _, st := range storesToField(sdr, eCount) {
-				ninit++
-				if k, ok := st.Val.(*ssa.Const); ok {
-					countK = k.Int64()
-				}
-			}
-			c.Check(okInit && ninit == 3 && firstK == countK, "R1.3", "the first Drop creates the identity interval ending just before seqno", dr.Pos(), fmt.Sprintf("entry{first: seqno-%d, count: %d, delta: 0}", firstK, countK), "the interval created by the first drop does not map the already forwarded packets to themselves up to seqno-1")
-		}
-	}
+	pmMappingRules(c, "R1.3")
 
 	// ---- R1.4 : Write ----
 	{
@@ -656,4 +315,362 @@ func sameBase(a, b ssa.Value) bool {
 	fa, ok1 := a.(*ssa.FieldAddr)
 	fb, ok2 := b.(*ssa.FieldAddr)
 	return ok1 && ok2 && fa.X == fb.X
+}
+
+// pmMappingRules decides the rules about the values packetmap hands out,
+// records and reverses (shared by C01, rule R1.3, and C03, rule R3.2).
+func pmMappingRules(c *Ctx, rule string) {
+	p := c.P
+	dr := p.Func("packetmap", "Map", "Drop")
+	mp := p.Func("packetmap", "Map", "Map")
+	di := p.Func("packetmap", "Map", "direct")
+	rv := p.Func("packetmap", "Map", "Reverse")
+	if dr == nil || mp == nil || di == nil || rv == nil {
+		c.Unknown(rule, "anchors", 0, "packetmap.Drop/Map/direct/Reverse not found")
+		return
+	}
+	fDelta := p.Field("packetmap", "Map", "delta")
+	fNext := p.Field("packetmap", "Map", "next")
+	eDelta := p.Field("packetmap", "entry", "delta")
+	eFirst := p.Field("packetmap", "entry", "first")
+	eCount := p.Field("packetmap", "entry", "count")
+	// ---- R1.3 : Map / direct / Reverse ----
+	{
+		smp, sdi, srv := p.SSAFunc(mp.Obj), p.SSAFunc(di.Obj), p.SSAFunc(rv.Obj)
+		strip := func(v ssa.Value) ssa.Value {
+			for {
+				switch x := v.(type) {
+				case *ssa.Convert:
+					v = x.X
+				case *ssa.ChangeType:
+					v = x.X
+				default:
+					return v
+				}
+			}
+		}
+		// onTrueEdgeOf reports whether block b is only reachable through the
+		// true edge of a test "m.delta == 0"
+		underDeltaZero := func(b *ssa.BasicBlock) bool {
+			for x := b; x != nil; x = x.Idom() {
+				if len(x.Preds) != 1 {
+					continue
+				}
+				pr := x.Preds[0]
+				iff, ok := pr.Instrs[len(pr.Instrs)-1].(*ssa.If)
+				if !ok || pr.Succs[0] != x {
+					continue
+				}
+				if bo, ok := iff.Cond.(*ssa.BinOp); ok && bo.Op == token.EQL && isLoadOfField(bo.X, fDelta) {
+					if k, isC := bo.Y.(*ssa.Const); isC && k.Int64() == 0 {
+						return true
+					}
+				}
+			}
+			return false
+		}
+		afterReset := func(r *ssa.Return) bool {
+			for _, ins := range r.Block().Instrs {
+				if call, ok := ins.(*ssa.Call); ok && call.Call.StaticCallee() != nil && call.Call.StaticCallee().Name() == "reset" {
+					return true
+				}
+			}
+			return false
+		}
+		checkReturns := func(fn *ssa.Function, name string, inverse bool) {
+			seqP := ssa.Value(fn.Params[1])
+			var bad []string
+			n := 0
+			for _, b := range fn.Blocks {
+				r, isR := b.Instrs[len(b.Instrs)-1].(*ssa.Return)
+				if !isR || len(r.Results) != 3 || b == fn.Recover {
+					continue
+				}
+				rv := returnVals(r)
+				okv := rv[0]
+				if k, isC := okv.(*ssa.Const); isC && k.Value != nil && k.Value.String() == "false" {
+					continue
+				}
+				v := strip(rv[1])
+				if ex, isEx := v.(*ssa.Extract); isEx {
+					// tail call of direct(seqno)
+					call, isCall := ex.Tuple.(*ssa.Call)
+					if !isCall || call.Call.StaticCallee() != sdi || call.Call.Args[1] != seqP || ex.Index != 1 {
+						bad = append(bad, p.PosStr(r.Pos())+" (not direct(seqno))")
+					}
+					if ex0, ok := okv.(*ssa.Extract); !ok || ex0.Tuple != ex.Tuple || ex0.Index != 0 {
+						bad = append(bad, p.PosStr(r.Pos())+" (ok is not direct's)")
+					}
+					n++
+					continue
+				}
+				n++
+				switch {
+				case v == seqP:
+					// identity: only while no packet was ever dropped, or after a reset
+					if !underDeltaZero(b) && !afterReset(r) {
+						bad = append(bad, p.PosStr(r.Pos())+" (identity although delta may be non-zero)")
+					}
+				default:
+					bo, isB := v.(*ssa.BinOp)
+					okForm := false
+					if isB && !inverse && bo.Op == token.ADD {
+						x, y := strip(bo.X), strip(bo.Y)
+						okForm = (x == seqP && (isLoadOfField(y, fDelta) || isLoadOfField(y, eDelta))) || (y == seqP && (isLoadOfField(x, fDelta) || isLoadOfField(x, eDelta)))
+					}
+					if isB && inverse && bo.Op == token.SUB {
+						okForm = strip(bo.X) == seqP && isLoadOfField(strip(bo.Y), eDelta)
+					}
+					if !okForm {
+						bad = append(bad, p.PosStr(r.Pos()))
+					}
+				}
+			}
+			what := "seqno + delta (seqno itself only while delta == 0 or after a reset)"
+			if inverse {
+				what = "seqno - interval delta (seqno itself only while delta == 0)"
+			}
+			c.Check(len(bad) == 0 && n > 0, rule, name+": successful returns are "+what, fn.Pos(), fmt.Sprintf("%d successful returns analysed", n), "a mapping is not of the form "+what+" (returns at "+strings.Join(bad, ", ")+")")
+		}
+		checkReturns(smp, "Map", false)
+		checkReturns(sdi, "direct", false)
+		checkReturns(srv, "Reverse", true)
+		// interval search: one cursor, membership test [F, F+count) with F =
+		// first (direct) or first+delta (Reverse) guards the successful return
+		checkSearch := func(fn *ssa.Function, name string, image bool) {
+			seqP := ssa.Value(fn.Params[1])
+			var cursor ssa.Value
+			single := true
+			for _, b := range fn.Blocks {
+				for _, ins := range b.Instrs {
+					fa, ok := ins.(*ssa.FieldAddr)
+					if !ok {
+						continue
+					}
+					f := fieldOf(fa)
+					if f != eFirst && f != eDelta && f != eCount && f != p.Field("packetmap", "entry", "pidDelta") {
+						continue
+					}
+					ia, ok := fa.X.(*ssa.IndexAddr)
+					if !ok {
+						single = false
+						continue
+					}
+					if cursor == nil {
+						cursor = ia.Index
+					} else if cursor != ia.Index {
+						single = false
+					}
+				}
+			}
+			isF := func(v ssa.Value) bool {
+				v = strip(v)
+				if !image {
+					return isLoadOfField(v, eFirst)
+				}
+				bo, ok := v.(*ssa.BinOp)
+				return ok && bo.Op == token.ADD && ((isLoadOfField(bo.X, eFirst) && isLoadOfField(bo.Y, eDelta)) || (isLoadOfField(bo.Y, eFirst) && isLoadOfField(bo.X, eDelta)))
+			}
+			isFplusCount := func(v ssa.Value) bool {
+				bo, ok := strip(v).(*ssa.BinOp)
+				return ok && bo.Op == token.ADD && ((isF(bo.X) && isLoadOfField(bo.Y, eCount)) || (isF(bo.Y) && isLoadOfField(bo.X, eCount)))
+			}
+			// cmpTest: cond is compare(seqno, X) rel 0, normalised to the orientation seqno ? X
+			cmpTest := func(cond ssa.Value) (ssa.Value, token.Token, bool) {
+				bo, ok := cond.(*ssa.BinOp)
+				if !ok {
+					return nil, 0, false
+				}
+				call, ok := bo.X.(*ssa.Call)
+				if !ok || call.Call.StaticCallee() == nil || call.Call.StaticCallee().Name() != "compare" {
+					return nil, 0, false
+				}
+				if k, isC := bo.Y.(*ssa.Const); !isC || k.Int64() != 0 {
+					return nil, 0, false
+				}
+				a0, a1 := call.Call.Args[0], call.Call.Args[1]
+				if a0 == seqP {
+					return a1, bo.Op, true
+				}
+				if a1 == seqP {
+					flip := map[token.Token]token.Token{token.LSS: token.GTR, token.GTR: token.LSS, token.LEQ: token.GEQ, token.GEQ: token.LEQ, token.EQL: token.EQL, token.NEQ: token.NEQ}
+					return a0, flip[bo.Op], true
+				}
+				return nil, 0, false
+			}
+			guarded := false
+			for _, b := range fn.Blocks {
+				r, isR := b.Instrs[len(b.Instrs)-1].(*ssa.Return)
+				if !isR || b == fn.Recover {
+					continue
+				}
+				rvv := returnVals(r)
+				if k, isC := rvv[0].(*ssa.Const); !isC || k.Value.String() != "true" {
+					continue
+				}
+				if bo, ok := strip(rvv[1]).(*ssa.BinOp); !ok || !(isLoadOfField(strip(bo.Y), eDelta) || isLoadOfField(strip(bo.X), eDelta)) {
+					continue
+				}
+				// the successful interval return: reachable only through both tests
+				if len(b.Preds) != 1 {
+					continue
+				}
+				p2 := b.Preds[0]
+				if2, ok := p2.Instrs[len(p2.Instrs)-1].(*ssa.If)
+				if !ok || p2.Succs[0] != b || len(p2.Preds) != 1 {
+					continue
+				}
+				p1 := p2.Preds[0]
+				if1, ok := p1.Instrs[len(p1.Instrs)-1].(*ssa.If)
+				if !ok || p1.Succs[0] != p2 {
+					continue
+				}
+				x2, op2, ok2 := cmpTest(if2.Cond)
+				x1, op1, ok1 := cmpTest(if1.Cond)
+				if ok1 && ok2 && op1 == token.GEQ && isF(x1) && op2 == token.LSS && isFplusCount(x2) {
+					guarded = true
+				}
+			}
+			what := "[first, first+count)"
+			if image {
+				what = "[first+delta, first+delta+count)"
+			}
+			c.Check(single && cursor != nil && guarded, rule, name+": the interval delta is applied only to members of "+what, fn.Pos(), "one cursor; the successful return is reachable only through seqno >= F and seqno < F+count (mod 2^16)", "the interval whose delta is applied is not the one whose membership test "+what+" succeeded")
+		}
+		checkSearch(sdi, "direct", false)
+		checkSearch(srv, "Reverse", true)
+		// in-order branch of Map stores next = seqno + 1
+		okNext := true
+		nst := 0
+		for _, st := range storesToField(smp, fNext) {
+			nst++
+			cs, ok := coeffOf(st.Val, func(v ssa.Value) bool { return v == ssa.Value(smp.Params[1]) }, 0)
+			bo, isB := st.Val.(*ssa.BinOp)
+			if !ok || cs != 1 || !isB || bo.Op != token.ADD {
+				okNext = false
+				continue
+			}
+			if k, isC := bo.Y.(*ssa.Const); !isC || k.Int64() != 1 {
+				okNext = false
+			}
+		}
+		// every branch that hands out a number for a new packet (records a
+		// mapping, or resets) advances next in the same block
+		need, have := 1, 0
+		for _, b := range smp.Blocks {
+			pending := false
+			for _, ins := range b.Instrs {
+				if call, ok := ins.(*ssa.Call); ok && call.Call.StaticCallee() != nil {
+					if n := call.Call.StaticCallee().Name(); n == "addMapping" || n == "reset" {
+						pending = true
+						need++
+					}
+				}
+				if st, ok := ins.(*ssa.Store); ok && pending {
+					if fa, ok := st.Addr.(*ssa.FieldAddr); ok && fieldOf(fa) == fNext {
+						pending = false
+						have++
+					}
+				}
+			}
+			if pending {
+				okNext = false
+			}
+		}
+		// the branch for "nothing ever dropped": a store under the in-order test
+		for _, st := range storesToField(smp, fNext) {
+			if underDeltaZero(st.Block()) {
+				have++
+				break
+			}
+		}
+		c.Check(okNext && have >= need && need >= 4, rule, "Map: every in-order packet advances next to seqno + 1", mp.Pos(), fmt.Sprintf("%d stores next = seqno + 1, %d branches that need one", nst, need), "a branch of Map hands out a number for a new packet without advancing next to seqno+1 (or advances it to something else)")
+		// the mapping recorded for an in-order packet is the one returned
+		am := p.Func("packetmap", "", "addMapping")
+		if am == nil {
+			c.Unknown(rule, "addMapping", mp.Pos(), "packetmap.addMapping not found")
+		} else {
+			sam := p.SSAFunc(am.Obj)
+			seqA, deltaA := ssa.Value(sam.Params[1]), ssa.Value(sam.Params[2])
+			okRec, nrec := true, 0
+			for _, st := range storesToField(sam, eDelta) {
+				nrec++
+				if st.Val != deltaA {
+					okRec = false
+				}
+			}
+			firsts := storesToField(sam, eFirst)
+			for _, st := range storesToField(sam, eCount) {
+				nrec++
+				// (seqno - F) + 1, F the first of the same interval
+				bo, isB := st.Val.(*ssa.BinOp)
+				if !isB || bo.Op != token.ADD {
+					okRec = false
+					continue
+				}
+				if k, isC := bo.Y.(*ssa.Const); !isC || k.Int64() != 1 {
+					okRec = false
+					continue
+				}
+				sub, isS := bo.X.(*ssa.BinOp)
+				if !isS || sub.Op != token.SUB || sub.X != seqA {
+					okRec = false
+					continue
+				}
+				okF := isLoadOfField(sub.Y, eFirst)
+				for _, fs := range firsts {
+					if fs.Val == sub.Y && sameBase(fs.Addr, st.Addr) {
+						okF = true
+					}
+				}
+				if !okF {
+					okRec = false
+				}
+			}
+			c.Check(okRec && nrec >= 3, rule, "addMapping records (seqno, delta) with the interval ending at seqno", am.Pos(), fmt.Sprintf("%d stores: entry.delta = delta, entry.count = seqno - first + 1", nrec), "the interval recorded for a forwarded packet does not end at that packet or carries another delta than the one returned")
+			okCall := false
+			for _, b := range smp.Blocks {
+				for _, ins := range b.Instrs {
+					call, ok := ins.(*ssa.Call)
+					if !ok || call.Call.StaticCallee() != sam {
+						continue
+					}
+					okCall = call.Call.Args[1] == ssa.Value(smp.Params[1]) && isLoadOfField(call.Call.Args[2], fDelta)
+					// and the value returned after it is seqno + the same delta
+				}
+			}
+			c.Check(okCall, rule, "Map records the mapping it returns", mp.Pos(), "addMapping(m, seqno, m.delta, ...) precedes return seqno + m.delta", "the mapping recorded for retransmissions differs from the number handed out")
+		}
+		// the interval created by the first Drop is the identity on the past
+		{
+			sdr := p.SSAFunc(dr.Obj)
+			okInit, ninit := true, 0
+			var firstK, countK int64 = -1, -2
+			for _, st := range storesToField(sdr, eDelta) {
+				ninit++
+				if k, ok := st.Val.(*ssa.Const); !ok || k.Int64() != 0 {
+					okInit = false
+				}
+			}
+			for _, st := range storesToField(sdr, eFirst) {
+				ninit++
+				cs, ok := coeffOf(st.Val, func(v ssa.Value) bool { return v == ssa.Value(sdr.Params[1]) }, 0)
+				bo, isB := st.Val.(*ssa.BinOp)
+				if !ok || cs != 1 || !isB || bo.Op != token.SUB {
+					okInit = false
+					continue
+				}
+				if k, isC := bo.Y.(*ssa.Const); isC {
+					firstK = k.Int64()
+				}
+			}
+			for _, st := range storesToField(sdr, eCount) {
+				ninit++
+				if k, ok := st.Val.(*ssa.Const); ok {
+					countK = k.Int64()
+				}
+			}
+			c.Check(okInit && ninit == 3 && firstK == countK, rule, "the first Drop creates the identity interval ending just before seqno", dr.Pos(), fmt.Sprintf("entry{first: seqno-%d, count: %d, delta: 0}", firstK, countK), "the interval created by the first drop does not map the already forwarded packets to themselves up to seqno-1")
+		}
+	}
 }
